@@ -222,6 +222,7 @@ func runC17(c *Ctx) {
 	checkROErrorCodes(c, "plumbing.not-found")
 	checkGenericErrorDiscipline(c, "pkg/fuse")
 	checkReadAtOffsetWithinLeaf(c, "plumbing.read.offset-within-leaf")
+	checkMountDataSource(c, "mount.data-source")
 }
 
 // guardedUpdateFails: `if _, update := X.Insert(k, v); update { return <non-nil error> }`
